@@ -381,6 +381,36 @@ impl<'tcx> Ctx<'tcx> {
         o
     }
 
+    /// Reads a `&[u8]`/`&str` fat pointer stored at `start` in allocation `id` and returns the
+    /// bytes it points to.
+    fn read_fat_slice(&self, id: mir::interpret::AllocId, start: usize) -> Option<Vec<u8>> {
+        let tcx = self.tcx;
+        if let mir::interpret::GlobalAlloc::Memory(a) = tcx.global_alloc(id) {
+            let a = a.inner();
+            let all = a.inspect_with_uninit_and_ptr_outside_interpreter(0..a.len());
+            if start + 16 <= all.len() {
+                let mut lenb = [0u8; 8];
+                lenb.copy_from_slice(&all[start + 8..start + 16]);
+                let n = u64::from_le_bytes(lenb) as usize;
+                for (o, p2) in a.provenance().ptrs().iter() {
+                    if o.bytes() as usize == start {
+                        if let mir::interpret::GlobalAlloc::Memory(b) = tcx.global_alloc(p2.alloc_id()) {
+                            let b = b.inner();
+                            let mut ob = [0u8; 8];
+                            ob.copy_from_slice(&all[start..start + 8]);
+                            let boff = u64::from_le_bytes(ob) as usize;
+                            let ball = b.inspect_with_uninit_and_ptr_outside_interpreter(0..b.len());
+                            if boff + n <= ball.len() {
+                                return Some(ball[boff..boff + n].to_vec());
+                            }
+                        }
+                    }
+                }
+            }
+        }
+        None
+    }
+
     fn try_bytes(&self, ty: Ty<'tcx>, v: ConstValue) -> Option<Vec<u8>> {
         let tcx = self.tcx;
         let inner = ty.peel_refs();
@@ -392,6 +422,12 @@ impl<'tcx> Ctx<'tcx> {
                 None
             }
             ConstValue::Scalar(mir::interpret::Scalar::Ptr(ptr, _)) => {
+                // &&[u8] / &&str (a promoted reference to a slice constant): the allocation holds a
+                // fat pointer (data pointer with provenance, then the length)
+                if inner.is_str() || matches!(inner.kind(), ty::Slice(t) if *t == tcx.types.u8) {
+                    let (prov, off) = ptr.prov_and_relative_offset();
+                    return self.read_fat_slice(prov.alloc_id(), off.bytes() as usize);
+                }
                 // &[u8; N]
                 if let ty::Array(et, len) = inner.kind() {
                     if *et == tcx.types.u8 {
@@ -411,6 +447,9 @@ impl<'tcx> Ctx<'tcx> {
                 None
             }
             ConstValue::Indirect { alloc_id, offset } => {
+                if inner.is_str() || matches!(inner.kind(), ty::Slice(t) if *t == tcx.types.u8) {
+                    return self.read_fat_slice(alloc_id, offset.bytes() as usize);
+                }
                 if let ty::Array(et, len) = inner.kind() {
                     if *et == tcx.types.u8 {
                         let n = len.try_to_target_usize(tcx)? as usize;
@@ -886,40 +925,69 @@ fn instance_kind_name(k: &ty::InstanceKind<'_>) -> &'static str {
 // type walk
 
 const TRANSPARENT: &[&str] = &[
-    "alloc::vec::Vec",
-    "alloc::string::String",
-    "alloc::boxed::Box",
-    "core::option::Option",
-    "core::result::Result",
-    "alloc::collections::btree::map::BTreeMap",
-    "alloc::collections::btree::set::BTreeSet",
-    "alloc::collections::vec_deque::VecDeque",
-    "core::ops::range::Range",
-    "core::marker::PhantomData",
-    "core::num::nonzero::NonZero",
-    "std::collections::hash::map::HashMap",
-    "std::collections::hash::set::HashSet",
-    "hashbrown::map::HashMap",
-    "hashbrown::set::HashSet",
+    "vec::Vec",
+    "string::String",
+    "boxed::Box",
+    "option::Option",
+    "result::Result",
+    "collections::BTreeMap",
+    "collections::BTreeSet",
+    "collections::VecDeque",
+    "collections::btree::map::BTreeMap",
+    "collections::btree::set::BTreeSet",
+    "collections::vec_deque::VecDeque",
+    "ops::Range",
+    "ops::range::Range",
+    "marker::PhantomData",
+    "num::NonZero",
+    "num::nonzero::NonZero",
+    "collections::HashMap",
+    "collections::HashSet",
+    "collections::hash::map::HashMap",
+    "collections::hash::set::HashSet",
 ];
 
-fn flag_for_path(p: &str) -> Option<&'static str> {
-    if p == "core::cell::UnsafeCell" {
-        return Some("UnsafeCell");
-    }
-    if p == "core::cell::Cell" || p == "core::cell::RefCell" || p.starts_with("core::cell::") {
-        return Some("Cell");
-    }
-    if p.starts_with("core::sync::atomic::") {
-        return Some("Atomic");
-    }
-    if p.starts_with("std::sync::") && !p.starts_with("std::sync::mpsc") {
-        if p.contains("Mutex") || p.contains("RwLock") || p.contains("Once") || p.contains("Condvar") || p.contains("Lazy") {
-            return Some("Lock");
+fn std_rel(p: &str) -> Option<&str> {
+    for pre in ["std::", "core::", "alloc::"] {
+        if let Some(r) = p.strip_prefix(pre) {
+            return Some(r);
         }
     }
+    None
+}
+
+fn is_transparent(p: &str) -> bool {
+    if let Some(r) = std_rel(p) {
+        return TRANSPARENT.contains(&r);
+    }
+    p == "hashbrown::HashMap"
+        || p == "hashbrown::HashSet"
+        || p == "hashbrown::map::HashMap"
+        || p == "hashbrown::set::HashSet"
+}
+
+fn flag_for_path(p: &str) -> Option<&'static str> {
     if p.ends_with("::HashMap") || p.ends_with("::HashSet") {
         return Some("Hash");
+    }
+    let r = std_rel(p)?;
+    if r == "cell::UnsafeCell" {
+        return Some("UnsafeCell");
+    }
+    if r.starts_with("cell::") {
+        return Some("Cell");
+    }
+    if r.starts_with("sync::atomic::") {
+        return Some("Atomic");
+    }
+    if r.starts_with("sync::") && !r.starts_with("sync::mpsc") && !r.starts_with("sync::Arc") {
+        return Some("Lock");
+    }
+    if r.starts_with("sync::mpsc") {
+        return Some("Channel");
+    }
+    if r.starts_with("rc::") {
+        return Some("Rc");
     }
     None
 }
@@ -948,7 +1016,7 @@ fn type_walk<'tcx>(tcx: TyCtxt<'tcx>, root: DefId) -> J {
                     flags.push(J::s(f));
                 }
                 // impls of interest are looked up by the rule side from the impl table
-                if TRANSPARENT.contains(&p.as_str()) {
+                if is_transparent(&p) {
                     e.set("transparent", J::b(true));
                     for a in args.iter() {
                         if let Some(at) = a.as_type() {
@@ -991,6 +1059,9 @@ fn type_walk<'tcx>(tcx: TyCtxt<'tcx>, root: DefId) -> J {
                 for x in ts.iter() {
                     stack.push((format!("{} <tuple>", key), x));
                 }
+            }
+            ty::Pat(base, _) => {
+                stack.push((format!("{} <pattern base>", key), *base));
             }
             ty::FnPtr(..) => {
                 flags.push(J::s("FnPtr"));
